@@ -305,6 +305,8 @@ def T13b():
             Cfg("NS", S, "ns", defaults=[('"s"', None)]),
             Cfg("ND", I, "nd", depends=["NB"], defaults=[("5", None)]),
             Cfg("NE", B, "ne", depends=["NC"], defaults=[("y", None)]),
+            # left-over references to names that only exist as deprecated aliases (undefined symbols of the tree)
+            Cfg("LEG", B, None, defaults=[("y", "OLD_E || INV_C || !PLAIN_AFTER")]),
         ],
         renames=[["CONFIG_OLD_D CONFIG_ND", "CONFIG_OLD_E CONFIG_NE", "CONFIG_OLD_E_INV !CONFIG_NE", "CONFIG_INV_FIRST !CONFIG_NB", "CONFIG_PLAIN_AFTER CONFIG_NB", "CONFIG_PLAIN_C CONFIG_NC", "CONFIG_INV_C !CONFIG_NC", "CONFIG_PLAIN_C2 CONFIG_NC", "CONFIG_OLD_S CONFIG_NS"]],
     )
